@@ -3,4 +3,6 @@
 namespace Ohkami.Gen
 def pollFlagFirst : Bool := true
 def pollRecheck : Bool := true
+/-- the tail of `howl` is `wg.await`: the wait group itself, awaited to its end -/
+def howlAwaitsWaitGroup : Bool := true
 end Ohkami.Gen
